@@ -120,7 +120,7 @@ impl Ctx {
             return;
         }
         let n = self.nontrivial.len() as u64;
-        if self.samples.len() < self.max_samples && (n <= 2 || n.is_power_of_two()) {
+        if self.samples.len() < self.max_samples && (n <= 2 || n.is_power_of_two() || self.samples.len() < 3) {
             let val = v();
             if !self.samples.contains(&val) {
                 self.samples.push(val);
